@@ -242,3 +242,45 @@ impl Ctxt for PhaseCtxt {
         self.step(3);
     }
 }
+
+/// Oracles that do not look at the properties (cheap when the event's props are large compositions).
+pub struct CountFilter {
+    pub calls: Cell<u32>,
+    pub answer: bool,
+}
+impl Filter for CountFilter {
+    fn matches<E: ToEvent>(&self, _: E) -> bool {
+        self.calls.set(self.calls.get() + 1);
+        self.answer
+    }
+}
+pub struct ExtentEmitter {
+    pub calls: Cell<u32>,
+    pub start: Cell<Option<Timestamp>>,
+    pub end: Cell<Option<Timestamp>>,
+    pub is_range: Cell<bool>,
+}
+impl ExtentEmitter {
+    pub fn new() -> Self {
+        ExtentEmitter { calls: Cell::new(0), start: Cell::new(None), end: Cell::new(None), is_range: Cell::new(false) }
+    }
+}
+impl Emitter for ExtentEmitter {
+    fn emit<E: ToEvent>(&self, evt: E) {
+        let evt = evt.to_event();
+        self.calls.set(self.calls.get() + 1);
+        if let Some(x) = evt.extent() {
+            match x.as_range() {
+                Some(r) => {
+                    self.start.set(Some(r.start));
+                    self.end.set(Some(r.end));
+                    self.is_range.set(true);
+                }
+                None => self.end.set(Some(*x.as_point())),
+            }
+        }
+    }
+    fn blocking_flush(&self, _: Duration) -> bool {
+        true
+    }
+}
